@@ -278,17 +278,22 @@ static int HandleZRLETile(rfbClient* client,
 				for(i=x; i<x+w; i++,buffer+=REALBPP/8)
 					((CARDBPP*)client->frameBuffer)[j+i] = UncompressCPixel(buffer);
 #else
+			if(1+w*h*REALBPP/8>buffer_length) {
+				rfbClientLog("expected %d bytes, got only %d (%dx%d)\n",1+w*h*REALBPP/8,buffer_length,w,h);
+				return -3;
+			}
 			client->GotBitmap(client, buffer, x, y, w, h);
 			buffer+=w*h*REALBPP/8;
 #endif
 		}
 		else if( type == 1 ) /* solid */
 		{
-			CARDBPP color = UncompressCPixel(buffer);
+			CARDBPP color;
 
 			if(1+REALBPP/8>buffer_length)
 				return -4;
-				
+			color = UncompressCPixel(buffer);
+
 			client->GotFillRect(client, x, y, w, h, color);
 
 			buffer+=REALBPP/8;
